@@ -54,6 +54,12 @@ Join(i) == /\ Can("join") /\ i > 1 /\ ~joined[i] /\ extra[i] = 0 /\ span[i] = 1 
            /\ UNCHANGED <<span, extra, eol, case, trail, form>>
 SetEol(e)  == Can("eol") /\ e # eol /\ eol' = e /\ Log([k |-> "eol", e |-> e]) /\ UNCHANGED <<span, extra, joined, case, trail, form>>
 SetCase(c) == Can("case") /\ c # case /\ case' = c /\ Log([k |-> "case", c |-> c]) /\ UNCHANGED <<span, extra, joined, eol, trail, form>>
+\* a trailing comment that contains a ";" (it must not be taken for a statement separator)
+TrailComment(i) == /\ Can("tcomment") /\ Log([k |-> "tcomment", at |-> i])
+                   /\ UNCHANGED <<span, extra, joined, eol, case, trail, form>>
+\* remove all indentation (free form stays free form)
+FlushLeft == /\ Can("flush") /\ form = "free" /\ ~\E j \in 1..Len(ops) : ops[j].k = "flush"
+             /\ Log([k |-> "flush"]) /\ UNCHANGED <<span, extra, joined, eol, case, trail, form>>
 Trail      == Can("trail") /\ ~trail /\ trail' = TRUE /\ Log([k |-> "trail"]) /\ UNCHANGED <<span, extra, joined, eol, case, form>>
 ToFixed(flag) == /\ Can("fixed") /\ form = "free" /\ \A i \in Stmts : ~joined[i]
                  /\ form' = "fixed" /\ Log([k |-> "fixed", flag |-> flag])
@@ -63,7 +69,8 @@ Step == \/ \E i \in Stmts : InsertBlank(i) \/ InsertComment(i) \/ Join(i)
         \/ \E i \in Stmts, lead \in BOOLEAN : SplitAmp(i, lead)
         \/ \E e \in {"LF", "CRLF", "CR"} : SetEol(e)
         \/ \E c \in {"upper", "lower", "mixed"} : SetCase(c)
-        \/ Trail
+        \/ Trail \/ FlushLeft
+        \/ \E i \in Stmts : TrailComment(i)
         \/ \E f \in {"C", "c", "*", "!", "d"} : ToFixed(f)
 Next == Step /\ lmap' = LineMap'
 Spec == Init /\ [][Next]_vars
